@@ -9,7 +9,8 @@ from . import core
 
 
 class Ctx:
-    def __init__(self, tier, repo=None, suffix=""):
+    def __init__(self, tier, repo=None, suffix="", only=None):
+        self.only = only
         self.tier = tier
         self.repo = repo or core.REPO
         self.configs_used = []
@@ -20,6 +21,8 @@ class Ctx:
         from . import r2
 
         config = config + self.suffix if not config.endswith(self.suffix) else config
+        if self.only is not None and config not in self.only:
+            raise core.SkipConfig(config)
         if config not in self.configs_used:
             self.configs_used.append(config)
         r2.PTR_BITS[0] = 32 if config.endswith("32") else 64
@@ -111,12 +114,12 @@ def run_property(pid, tier, seed, repo=None, write=True):
                 runs += [(fn, "default"), (fn, "nostd")]
     # thorough tier: the same clauses on the 32-bit-digit variants of the code (i686 build through -Zbuild-std); rules that
     # are about x86_64-only constructs or that compare against 64-bit instance tables are left out, with the reason
-    ctx32 = None
-    if tier == "thorough":
-        ctx32 = Ctx(tier, repo, suffix="32")
-        for fn in meta["clauses"]:
-            if not _skip32(fn):
-                runs.append((fn, "@32"))
+    # quick tier: the same, restricted to the one configuration `all32` (a clause that also wants release / default / no_std
+    # facts is cut short there)
+    ctx32 = Ctx(tier, repo, suffix="32", only=None if tier == "thorough" else {"all32"})
+    for fn in meta["clauses"]:
+        if not _skip32(fn):
+            runs.append((fn, "@32"))
     n64 = None
     for fn, cfg in runs:
         try:
@@ -128,6 +131,8 @@ def run_property(pid, tier, seed, repo=None, write=True):
                 fn(ctx32, res)
             else:
                 fn(ctx, res, config=cfg)
+        except core.SkipConfig:
+            pass
         except core.ExtractError as e:
             # the tree does not build in a configuration the rule needs: the property cannot be shown
             tail = "\n".join(e.output.strip().splitlines()[-25:])
@@ -154,7 +159,7 @@ def run_property(pid, tier, seed, repo=None, write=True):
         for f in res.findings[n64:]:
             f.msg = "[32-bit digit build, i686] " + f.msg
             f.key = f.key + "@32"
-        res.clause("thorough: %d clauses re-run on the facts of the i686 build (32-bit digits; std built from rust-src)" % sum(1 for _, c in runs if c == "@32"))
+        res.clause("%d clauses re-run on the facts of the i686 build (32-bit digits; std built from rust-src)%s" % (sum(1 for _, c in runs if c == "@32"), "" if tier == "thorough" else " - quick tier: configuration all32 only"))
         ctx.configs_used += [c for c in ctx32.configs_used if c not in ctx.configs_used]
         from . import r2 as _r2
 
@@ -204,7 +209,7 @@ def _skip32(fn):
 MUTANT_PROPS = {
     "revert_10cab46": ["C16"], "revert_15b3ffd": ["C05", "C14"], "revert_34e570a": ["C03", "C14"], "revert_9ca561a": ["C06", "C14"],
     "revert_c02e67c": ["C10", "C03"], "revert_ccc525b": ["C09"], "r2_": ["C10"], "r4_": ["C15"],
-    "r1_monty": ["C05", "C04"], "r1_sub": ["C01", "C04"], "r5_bit": ["C07"], "r5_divfloor": ["C03"], "r5_modpow": ["C05"],
+    "b32_": ["C17", "C04"], "r1_monty": ["C05", "C04"], "r1_sub": ["C01", "C04"], "r5_bit": ["C07"], "r5_divfloor": ["C03"], "r5_modpow": ["C05"],
 }
 
 
